@@ -333,6 +333,7 @@ func checkPair(c *PairCase) *Outcome {
 	// the language-level notions, on two back ends
 	env := map[string]*m.Type{"v": c.V.T, "w": c.W.T}
 	vals := map[string]*m.Val{"v": c.V, "w": c.W}
+	litClass := false
 	for _, be := range []run.Backend{run.VMSwitch, run.Closure} {
 		en := run.NewEngine(be, nil)
 		tests := []struct {
@@ -368,6 +369,28 @@ func checkPair(c *PairCase) *Outcome {
 				want bool
 			}{"v != w", !eq})
 		}
+		// both values written as literals inside ONE expression (object fields in the order each
+		// value has them): the same relations
+		if lv, lw := gen.LitOf(c.V), gen.LitOf(c.W); lv != nil && lw != nil && !c.Host {
+			LV, LW := m.Print(gen.Parenthesize(lv), m.PrintOpt{}), m.Print(gen.Parenthesize(lw), m.PrintOpt{})
+			litClass = true
+			tests = append(tests, struct {
+				src  string
+				want bool
+			}{"len(union([" + LV + "], [" + LW + "])) == 1", eq}, struct {
+				src  string
+				want bool
+			}{"len(diff([" + LV + ", " + LW + "], [" + LW + "])) == 0", eq}, struct {
+				src  string
+				want bool
+			}{"string(" + LV + ") == string(" + LW + ") || !(" + fmt.Sprint(eq) + ")", true}, struct {
+				src  string
+				want bool
+			}{"string([" + LV + ", " + LW + "]) == string([" + LW + ", " + LV + "]) || !(" + fmt.Sprint(eq) + ")", true}, struct {
+				src  string
+				want bool
+			}{"[" + LV + "] == [" + LW + "]", eq})
+		}
 		for _, tc := range tests {
 			en2 := run.NewEngine(be, nil)
 			if c.ShareV {
@@ -389,6 +412,9 @@ func checkPair(c *PairCase) *Outcome {
 	}
 	if c.Host {
 		classes = append(classes, "via-host-data")
+	}
+	if litClass {
+		classes = append(classes, "both-values-as-literals-in-one-expression")
 	}
 	if c.StepW && !c.Host {
 		classes = append(classes, "w-assembled-step-by-step-and-rendered-in-between")
@@ -476,7 +502,7 @@ func eachNumPair(yield func(*NumPair) bool) {
 }
 
 func TestC18(t *testing.T) {
-	R.Rule = "pairs (v, w) of one type (primitives, nested lists / maps / objects / optionals to depth 4): w is a copy, a field-order and insertion-order permutation, v with one leaf changed to a clearly different value (numbers identical or differing by > 1e-6, across 2^53 and 2^63; strings needing escapes; instants, several zones), unrelated, or two different values whose texts coincide once strings are written without quotes (a string holding the container's separator); built through the value constructors (one case in six with repeated sub-values being one shared value on the v side only) or as Go host data through conv; one case in six assembles w step by step (containers attached empty and filled afterwards through ListVal.Add / MapVal.Put, the value under construction rendered after every step); oracle: agreement of val.Equals, Val.String equality, Val.Key equality, isset([v:1], w), union / intersect / diff cardinalities (the two values on opposite sides, on one side against an empty list of their type, against themselves), == / != and string(v) == string(w) for equal values, labelled by the model's own equality; reflexivity and symmetry, the rendering of one value repeated eight times; plus all pairs of the boundary numeric pool (incl. neighbouring doubles with a fractional part at seven magnitudes) for distinct renderings and keys; non-trivial = a model-equal pair in another representation, or a pair differing in exactly one leaf"
+	R.Rule = "pairs (v, w) of one type (primitives, nested lists / maps / objects / optionals to depth 4): w is a copy, a field-order and insertion-order permutation, v with one leaf changed to a clearly different value (numbers identical or differing by > 1e-6, across 2^53 and 2^63; strings needing escapes; instants, several zones), unrelated, or two different values whose texts coincide once strings are written without quotes (a string holding the container's separator); built through the value constructors (one case in six with repeated sub-values being one shared value on the v side only) or as Go host data through conv; one case in six assembles w step by step (containers attached empty and filled afterwards through ListVal.Add / MapVal.Put, the value under construction rendered after every step); oracle: agreement of val.Equals, Val.String equality, Val.Key equality, isset([v:1], w), union / intersect / diff cardinalities (the two values on opposite sides, on one side against an empty list of their type, against themselves), == / != and string(v) == string(w) for equal values, the same relations with both values written as literals inside one expression (object fields in each value's own order), labelled by the model's own equality; reflexivity and symmetry, the rendering of one value repeated eight times; plus all pairs of the boundary numeric pool (incl. neighbouring doubles with a fractional part at seven magnitudes) for distinct renderings and keys; non-trivial = a model-equal pair in another representation, or a pair differing in exactly one leaf"
 	R.Assume = []string{"model.ValEqual (harness) labels pairs; numbers inside a pair are identical or clearly different (the property's own restriction)"}
 	reportKnown(t, "C18")
 	runRegress(t, "C18")
